@@ -316,10 +316,12 @@ func (table *Table) DelAggregator(id int) error {
 
 	agg := conf.aggregators[id]
 	fmt.Println("len", len(conf.aggregators))
-	conf.aggregators = append(conf.aggregators[:id], conf.aggregators[id+1:]...)
+	// the full slice expression caps capacity so that append copies:
+	// dispatchers may still be iterating over the old backing array
+	conf.aggregators = append(conf.aggregators[:id:id], conf.aggregators[id+1:]...)
 	fmt.Println("len", len(conf.aggregators))
-	agg.Shutdown()
 	table.config.Store(conf)
+	agg.Shutdown()
 	return nil
 }
 
@@ -330,7 +332,9 @@ func (table *Table) DelBlacklist(index int) error {
 	if index >= len(conf.blacklist) {
 		return fmt.Errorf("Invalid index %d", index)
 	}
-	conf.blacklist = append(conf.blacklist[:index], conf.blacklist[index+1:]...)
+	// the full slice expression caps capacity so that append copies:
+	// dispatchers may still be iterating over the old backing array
+	conf.blacklist = append(conf.blacklist[:index:index], conf.blacklist[index+1:]...)
 	table.config.Store(conf)
 	return nil
 }
@@ -353,7 +357,9 @@ func (table *Table) DelRewriter(id int) error {
 		return fmt.Errorf("Invalid index %d", id)
 	}
 
-	conf.rewriters = append(conf.rewriters[:id], conf.rewriters[id+1:]...)
+	// the full slice expression caps capacity so that append copies:
+	// dispatchers may still be iterating over the old backing array
+	conf.rewriters = append(conf.rewriters[:id:id], conf.rewriters[id+1:]...)
 	table.config.Store(conf)
 	return nil
 }
@@ -376,7 +382,9 @@ func (table *Table) DelRoute(key string) error {
 		return nil
 	}
 
-	conf.routes = append(conf.routes[:toDelete], conf.routes[toDelete+1:]...)
+	// the full slice expression caps capacity so that append copies:
+	// dispatchers may still be iterating over the old backing array
+	conf.routes = append(conf.routes[:toDelete:toDelete], conf.routes[toDelete+1:]...)
 	table.config.Store(conf)
 
 	err := route.Shutdown()
